@@ -30,6 +30,7 @@ import (
 	"strconv"
 	"strings"
 	"syscall"
+	"time"
 
 	"shanhu.io/g/dock"
 	"shanhu.io/g/errcode"
@@ -373,6 +374,10 @@ func (c *ctx) exec(line string) (string, *violation) {
 		return c.execExtract(ws)
 	case "rt":
 		return c.execRoundTrip(ws)
+	case "rthist":
+		return c.execRoundTripHistory(ws)
+	case "firstfile":
+		return c.execFirstFile(ws)
 	case "rtfile":
 		return c.execRoundTripFile(ws)
 	case "tarzip":
@@ -438,6 +443,155 @@ func (c *ctx) execExtract(ws []string) (string, *violation) {
 }
 
 func treeOf(m map[string]string) string { return showSnap(m) }
+
+// execFirstFile: dock.writeFirstFileAs (Cont.CopyOutFile) must write the named
+// destination file only, whatever names the daemon's tar stream carries.
+func (c *ctx) execFirstFile(ws []string) (string, *violation) {
+	dirHex, ok1 := kvGet(ws, "dir")
+	destHex, ok2 := kvGet(ws, "dest")
+	preS, ok3 := kvGet(ws, "pre")
+	entS, ok4 := kvGet(ws, "ents")
+	if !ok1 || !ok2 || !ok3 || !ok4 {
+		return "bad-op", nil
+	}
+	pre, okp := parseEnts(preS)
+	es, oke := parseEnts(entS)
+	if !okp || !oke {
+		return "bad-op", nil
+	}
+	if _, ok := c.prepare(string(hx.UnHex(dirHex)), pre); !ok {
+		return "bad-pre", nil
+	}
+	destAbs := string(hx.UnHex(destHex))
+	target, ok := c.real(destAbs)
+	if !ok {
+		return "bad-op", nil
+	}
+	bs, berr := buildTar(es)
+	if berr != nil {
+		return "bad-archive", nil
+	}
+	inside := strings.TrimPrefix(target, c.root+"/")
+	before := snapshot(c.root)
+	c.j.Risky(strings.Join(ws, " "))
+	err, fdv := c.guarded(ws, "writeFirstFileAs", func() error { return dock.VerifWriteFirstFileAs(bytes.NewReader(bs), target) })
+	after := snapshot(c.root)
+	st := status(err)
+	if errcode.IsNotFound(err) {
+		st = "notfound"
+	}
+	out := st + " tree=" + showSnap(after)
+	if fdv != nil {
+		return out, fdv
+	}
+	var bad []string
+	for _, p := range outside(before, after, inside) {
+		bad = append(bad, p)
+	}
+	for p, v := range after {
+		// below the destination path nothing may appear either: the file is saved AS dest
+		if strings.HasPrefix(p, inside+"/") && before[p] != v {
+			bad = append(bad, p)
+		}
+	}
+	if len(bad) > 0 {
+		sort.Strings(bad)
+		return out, &violation{"firstfile-writes-other-than-dest",
+			fmt.Sprintf("writeFirstFileAs(tar, %s) created or changed %q, not only the destination file (returned: %s)", destAbs, bad, st)}
+	}
+	return out, nil
+}
+
+// buildTreeAt makes the tree below src (walk order), all files with the given mtime.
+func buildTreeAt(src string, tree []ent, mtime time.Time) bool {
+	for _, e := range tree {
+		p := filepath.Join(src, string(e.name))
+		if e.kind == "d" {
+			if err := os.Mkdir(p, 0o700); err != nil {
+				return false
+			}
+		} else if err := os.WriteFile(p, e.content, 0o600); err != nil {
+			return false
+		}
+	}
+	for i := len(tree) - 1; i >= 0; i-- {
+		p := filepath.Join(src, string(tree[i].name))
+		if os.Chmod(p, os.FileMode(tree[i].perm)) != nil || os.Chtimes(p, mtime, mtime) != nil {
+			return false
+		}
+	}
+	return true
+}
+
+// execRoundTripHistory: a tree is zipped and extracted; the tree is edited
+// (same-size edits within the same second included) and zipped again, and that
+// archive is extracted INTO the earlier extraction.  Every item of the second
+// tree must come out with the second tree's content and mode.
+func (c *ctx) execRoundTripHistory(ws []string) (string, *violation) {
+	dirHex, ok1 := kvGet(ws, "dir")
+	t1S, ok2 := kvGet(ws, "tree1")
+	t2S, ok3 := kvGet(ws, "tree2")
+	clearS, ok4 := kvGet(ws, "clear")
+	if !ok1 || !ok2 || !ok3 || !ok4 {
+		return "bad-op", nil
+	}
+	t1, oka := parseEnts(t1S)
+	t2, okb := parseEnts(t2S)
+	if !oka || !okb || len(t1) == 0 || len(t2) == 0 || string(t1[0].name) != "." || string(t2[0].name) != "." {
+		return "bad-op", nil
+	}
+	dt := 0
+	if v, ok := kvGet(ws, "dt"); ok {
+		dt, _ = strconv.Atoi(v)
+	}
+	realDest, ok := c.prepare(string(hx.UnHex(dirHex)), nil)
+	if !ok {
+		return "bad-pre", nil
+	}
+	base := time.Date(2021, 3, 4, 5, 6, 8, 0, time.UTC)
+	round := func(name string, tree []ent, mtime time.Time, clear bool) (string, *violation) {
+		src := filepath.Join(c.root, name)
+		if os.Mkdir(src, 0o700) != nil || !buildTreeAt(src, tree[1:], mtime) || os.Chmod(src, os.FileMode(tree[0].perm)) != nil {
+			return "bad-tree", nil
+		}
+		os.Chtimes(src, mtime, mtime)
+		var buf bytes.Buffer
+		if err := ziputil.ZipDir(src, &buf); err != nil {
+			return "zip-error", &violation{"roundtrip-zipdir-error", "ZipDir failed: " + err.Error()}
+		}
+		zr, err := zip.NewReader(bytes.NewReader(buf.Bytes()), int64(buf.Len()))
+		if err != nil && err != zip.ErrInsecurePath {
+			return "zip-unreadable", &violation{"roundtrip-zip-unreadable", "archive written by ZipDir is not readable: " + err.Error()}
+		}
+		err, fdv := c.guarded(ws, "UnzipDir", func() error { return ziputil.UnzipDir(realDest, zr, clear) })
+		return status(err), fdv
+	}
+	c.j.Risky(strings.Join(ws, " "))
+	st1, v := round("src1", t1, base, true)
+	if v != nil || strings.HasPrefix(st1, "bad") || strings.HasPrefix(st1, "zip-") {
+		return st1, v
+	}
+	st2, v := round("src2", t2, base.Add(time.Duration(dt)*time.Millisecond), clearS == "1")
+	if v != nil || strings.HasPrefix(st2, "bad") || strings.HasPrefix(st2, "zip-") {
+		return st2, v
+	}
+	got := snapshot(realDest)
+	out := st1 + " " + st2 + " tree=" + treeOf(got)
+	if st1 == "ok" && st2 == "ok" {
+		want := snapshot(filepath.Join(c.root, "src2"))
+		for p, w := range want {
+			if got[p] != w {
+				return out, &violation{"roundtrip-history-stale-content", fmt.Sprintf(
+					"a tree was zipped and extracted, edited, zipped again and extracted into the earlier extraction (clear=%s, edit %d ms later): %q came out as %s, the archived item is %s",
+					clearS, dt, p, got[p], w)}
+			}
+		}
+		if clearS == "1" && treeOf(got) != treeOf(want) {
+			return out, &violation{"roundtrip-differs", "UnzipDir(clear) of the second archive differs from the second tree"}
+		}
+	}
+	return out, nil
+}
 
 // openFDs counts the descriptors of this process (-1 when /proc is not there).
 func openFDs() int {
@@ -1261,6 +1415,99 @@ func (g *gen) manyFilesOps(files int) {
 	g.rep.Count("op:many-files-under-low-nofile")
 }
 
+// historyOps: round-trip histories with same-size edits at the same second.
+func (g *gen) historyOps(n int) {
+	d := hx.Hex([]byte(absDest))
+	for i := 0; i < n; i++ {
+		t1 := g.tree()
+		if i%3 == 0 {
+			t1 = g.twinTree()
+		}
+		t2 := make([]ent, 0, len(t1)+1)
+		edited := false
+		for j, e := range t1 {
+			e2 := ent{append([]byte{}, e.name...), e.kind, e.perm, append([]byte{}, e.content...)}
+			if j > 0 && e.kind == "f" {
+				switch g.r.Intn(5) {
+				case 0, 1: // same size, other bytes
+					if len(e2.content) == 0 {
+						break
+					}
+					for k := range e2.content {
+						e2.content[k] ^= byte(1 + g.r.Intn(255))
+					}
+					edited = true
+					g.rep.Count("history:same-size-edit")
+				case 2:
+					e2.content = append(e2.content, 'x')
+					g.rep.Count("history:other-size-edit")
+				case 3:
+					e2.perm = 0o400 | g.r.Intn(0o400)
+					g.rep.Count("history:mode-edit")
+				}
+			}
+			if j > 0 && e.kind == "f" && !strings.Contains(string(e.name), "/") && g.r.Intn(12) == 0 {
+				g.rep.Count("history:removed")
+				continue // removed from the second tree
+			}
+			t2 = append(t2, e2)
+		}
+		if !edited {
+			for j := range t2 {
+				if j > 0 && t2[j].kind == "f" && len(t2[j].content) > 0 {
+					t2[j].content[0] ^= 0x55
+					g.rep.Count("history:same-size-edit")
+					break
+				}
+			}
+		}
+		dt := hx.Pick(g.r, []int{0, 500, 999, 1000, 2500})
+		g.add(fmt.Sprintf("rthist dir=%s clear=%d tree1=%s tree2=%s dt=%d", d, g.r.Intn(2), fmtEnts(t1), fmtEnts(t2), dt), true)
+		g.rep.Count("op:roundtrip-history")
+	}
+}
+
+// firstFileOps: tar streams for Cont.CopyOutFile with hostile first-entry names;
+// the destination is an existing file, a missing file, an existing directory,
+// or a path whose parent is missing.
+func (g *gen) firstFileOps(n int) {
+	d := hx.Hex([]byte(absDest))
+	pre := []ent{{[]byte("dest"), "d", 0o755, nil}, {[]byte("dest/out.txt"), "f", 0o640, []byte("old")}, {[]byte("dest/sub"), "d", 0o755, nil},
+		{[]byte("sib.txt"), "f", 0o644, []byte("sibling")}, {[]byte("escaped.txt"), "f", 0o600, []byte("mine")}}
+	dests := []string{absDest + "/out.txt", absDest + "/new.txt", absDest, absDest + "/sub", absDest + "/sub/", absDest + "/nodir/x", absDest + "/sub/../out.txt"}
+	names := append([]string{"../escaped.txt", "../sib.txt", "a/../../escaped.txt", "/abs", "out.txt", "x", "sub/y", "..", ".", ""}, crafted...)
+	for i := 0; i < n; i++ {
+		var nm string
+		if i < len(names)*2 {
+			nm = names[i%len(names)]
+		} else {
+			nm = g.name()
+		}
+		if ups(nm) > maxUp || upsAnySep(nm) > maxUp || strings.HasSuffix(nm, "/") {
+			continue
+		}
+		var es []ent
+		if g.r.Intn(3) == 0 {
+			es = append(es, ent{[]byte("lead"), "d", 0o755, nil})
+		}
+		if g.r.Intn(8) == 0 {
+			es = append(es, ent{[]byte("lnk"), "o", 0o777, nil})
+		}
+		if g.r.Intn(12) != 0 {
+			es = append(es, ent{[]byte(nm), "r", g.filePerm(), g.content()})
+		}
+		if g.r.Intn(3) == 0 {
+			es = append(es, ent{[]byte(g.name()), "r", g.filePerm(), g.content()})
+			if strings.HasSuffix(string(es[len(es)-1].name), "/") {
+				es = es[:len(es)-1]
+			}
+		}
+		dest := dests[i%len(dests)]
+		g.add(fmt.Sprintf("firstfile dir=%s dest=%s pre=%s ents=%s", d, hx.Hex([]byte(dest)), fmtEnts(pre), fmtEnts(es)), true)
+		g.rep.Count("op:firstfile")
+	}
+}
+
 func (g *gen) tarZipOps(n int) {
 	dirs := []string{"", "app", "app/sub", ".", "app/", "./app//x/.."}
 	for i := 0; i < n; i++ {
@@ -1415,6 +1662,8 @@ func main() {
 		g.roundTripOps(nrt)
 		g.spellingOps(nrt / 25)
 		g.manyFilesOps(200)
+		g.historyOps(nrt / 4)
+		g.firstFileOps(nx / 5)
 		g.tarZipOps(ntz)
 		ops = append(ops, g.ops...)
 		rep.Distribution["small_scope"] = fmt.Sprintf("every name of <= %d segments over {a,..,.,empty} x {leading slash} x {trailing slash}, "+
